@@ -551,6 +551,19 @@ def run(chk: Check) -> None:
                 f"two children of a task group in sleep_forever(), each under a scope of its own ({how}): {problems}",
                 {"kind": "sleep_forever_siblings", "how": how},
             )
+    # TaskHandle.tla (the Task objects of TaskGroup.start(): join / join_or_cancel / wait): a cancellation that reaches the waiter in the very
+    # iteration in which the awaited task finishes still propagates - "an external task cancellation always propagates"
+    from ..extras import task_handle
+
+    rep = task_handle.run(chk.tier, chk.seed)
+    chk.traces += sum(v.get("behaviours", 0) for v in rep.get("replay", {}).values())
+    chk.extra["task_handle_replay"] = rep.get("replay")
+    for msg in rep["violations"][:6]:
+        chk.violation(
+            {"kind": "replay", "spec": "TaskHandle", "what": "waiter"},
+            f"Task handle (TaskGroup.start): {msg}",
+            {"kind": "task_handle", "detail": msg},
+        )
     chk.extra["programs_with_task_group"] = sum(1 for t in rec if "group{" in t["meta"])
     chk.not_covered.append("task groups with several children or children that open scopes of their own (one sleeping-then-marking child per group)")
     chk.assumptions += [
